@@ -542,11 +542,17 @@ def _filled_by(f, du, T, lname, prog=None):
 def _check_reset_path(ctx, f):
     """brew's 'reset' branch calibrates the ensemble prediction with the
     method twin and the caller's test_fdr."""
-    calls = [n for n in ast.walk(f.node) if isinstance(n, ast.Call)
-             and isinstance(n.func, ast.Attribute)
-             and n.func.attr == "calibrate_scores"]
-    for c in calls:
-        ok = len(c.args) >= 2 and ast.unparse(c.args[1]) == "test_fdr"
+    from ..proto import Calls
+    from ..tutil import bound_margs
+    cl = Calls(ctx.prog, f)
+    for t, c in cl.mcalls("calibrate_scores"):
+        b = bound_margs(ctx.prog, t)
+        if b is None:
+            b = dict(t[4])
+            for i_, nm in enumerate(("scores", "eval_fdr", "desc")):
+                if i_ < len(t[3]):
+                    b.setdefault(nm, t[3][i_])
+        ok = b.get("eval_fdr") == ("param", "test_fdr")
         ctx.check(ok, "C11b-reset-eval-fdr", f,
                   "reset path calibrates at the caller's test_fdr",
                   f"call is {ast.unparse(c)[:100]}", node=c)
